@@ -3,6 +3,7 @@
   the middlewares are in the second half).
 -/
 import KamalProxy.Model.BufferMw
+import KamalProxy.Model.Faults
 namespace KamalProxy.C14
 open KamalProxy
 
@@ -461,5 +462,21 @@ theorem C14_content_length_untouched (mm mb : Nat) (evs : List HEv) :
       · exact Or.inl h
       · exact Or.inr ⟨n, hsub n hn, h⟩
     · exact Or.inl rfl
+
+/-- Through the complete stack (a real connection in front, the reverse proxy behind): a buffered response over
+    the service's limit reaches the client as a complete, well-formed 500 — never as a cut connection and never
+    with any of the target's body — whether or not an informational response preceded it, and is logged as 500;
+    a response at or under the limit, or an unbuffered one, is not affected by the limit at all. -/
+theorem C14_over_limit_is_500 (s : Faults.Setup) (st n : Nat) :
+    (Faults.overLimit s n = true →
+      (Faults.outcome s (.ok st n)).client = .response 500 Faults.overLimitBodyLen ∧
+      (Faults.outcome s (.early st n)).client = .response 500 Faults.overLimitBodyLen ∧
+      (Faults.outcome s (.ok st n)).logStatus = 500) ∧
+    (Faults.overLimit s n = false →
+      (Faults.outcome s (.ok st n)).client = .response st n ∧ (Faults.outcome s (.ok st n)).logStatus = st) := by
+  constructor <;> intro h <;> simp [Faults.outcome, h]
+
+example : Faults.overLimit { bufResp := true, pages := false, timeout := 5, maxResp := 50000 } 70000 = true := by decide
+example : Faults.overLimit { bufResp := true, pages := false, timeout := 5, maxResp := 50000 } 50000 = false := by decide
 
 end KamalProxy.C14
